@@ -5,9 +5,12 @@ mod engine;
 mod hscen;
 mod indexes;
 mod values;
+mod vecindex;
+mod vecops;
 mod matrix;
 mod pool;
 mod prog;
+mod proof;
 mod store;
 mod val;
 
@@ -46,6 +49,9 @@ fn main() {
         "drive-handler" => hscen::main(&args),
         "dump-matrix" => matrix::main(&args),
         "dump-values" => values::main(&args),
+        "drive-vecindex" => vecindex::main(&args),
+        "drive-vecops" => vecops::main(&args),
+        "drive-proof" => proof::main(&args),
         "drive-indexes" => indexes::main(&args),
         "crash-workload" => crash::workload(&args),
         "recover" => crash::recover(&args),
